@@ -26,10 +26,11 @@ def run(tier, replay):
     res = wv.Result(PID, "model_checking", tier)
     with cf.ThreadPoolExecutor(4) as ex:
         fd = ex.submit(wv.design_runs, res, [("RoundTrip", "MC_RoundTrip", True), ("RoundTrip", "MC_RoundTrip_neg_eof", False)])
+        fp = ex.submit(wv.proofs, res, "ChunkingProofs")
         fc = ex.submit(consts_probe, res)
         exes = {b: ex.submit(e2e_exe, b) for b in ((2,) if tier == "quick" else (2, 3))}
         exes = {b: f.result() for b, f in exes.items()}
-        consts = fc.result(); fd.result()
+        consts = fc.result(); fd.result(); fp.result()
     if replay:
         events = json.load(open(replay))["replay"]["events"]
     else:
